@@ -28,11 +28,17 @@
      frames, stack overflow); the code now threads a DepthGuard with limit 500 through that recursion and
      reports RecursionError: C21_guard_depth_selection_validation (limit + 1 nested activations for every
      document, fragment table and schema), C21_selection_limit_reported; the recursion before the repair is
-     kept as gd_vss (Valid/Unguarded.v) with its witness, C21_selection_depth_unguarded_old_refuted. *)
+     kept as gd_vss (Valid/Unguarded.v) with its witness, C21_selection_depth_unguarded_old_refuted.
+   - detect_fragment_cycles used to call itself for every field and inline fragment too, so that its native
+     depth was (fragments on the path) x (nesting of each definition) although its guard bounds the fragments
+     (former finding fragment_cycles_recursion_unguarded, stack overflow); it now loops over an explicit-stack
+     iterator and calls itself only to follow a spread: the activations bounded by
+     C21_guard_depth_fragments are now all of its native recursion, and the iterator yields the sequence of
+     spreads the model works on, C21_fragment_spreads_iterated. *)
 From Coq Require Import Sorting.Sorted Sorting.Permutation.
 From ApolloVerif Require Import Base.Chars Ast.Ast Schema.Model Valid.Guards Valid.GuardsProofs
      Valid.SortProofs Valid.GuardsExamples Valid.CycleExact Valid.DeepChain Valid.Unguarded Valid.WalkExact
-     Valid.DeferReport Valid.SelWalkProofs.
+     Valid.DeferReport Valid.SelWalkProofs Valid.SpreadIter.
 
 (* ---- guarded traversals: termination within limit + 1 activations, fuel independence, no truncation *)
 
@@ -80,6 +86,26 @@ Check C21_guard_depth_directives : forall find_dir find_type limit fuel name ite
   forall limit', (limit <= limit')%N -> gd_verdict_of r <> GvLimit ->
     gd_verdict_of (gd_dir_check_with limit' (gd_dir_fuel_of limit) find_dir find_type name items) = gd_verdict_of r.
 Print Assumptions C21_guard_depth_directives.
+
+(* nested_fragment_spreads, the explicit-stack iterator detect_fragment_cycles loops over (the only other loop
+   of that function since its repair: it recurses natively only where gd_frag_loop calls `rec`): for every stack
+   of pending selection lists it terminates (one turn per selection, push and pop) and yields the fragment
+   spreads in document order, i.e. the list gd_spreads on which gd_frag_check is defined *)
+Theorem C21_fragment_spreads_iterated :
+  (forall fuel stack, (si_stack stack < fuel)%nat ->
+     gd_spread_iter fuel stack = Some (flat_map gd_spreads stack)) /\
+  (forall sels, gd_spread_iter (S (S (si_list sels))) [sels] = Some (gd_spreads sels)).
+Proof. split; [exact spread_iter_spreads|exact spread_iter_top]. Qed.
+Check C21_fragment_spreads_iterated :
+  (forall fuel stack, (si_stack stack < fuel)%nat ->
+     gd_spread_iter fuel stack = Some (flat_map gd_spreads stack)) /\
+  (forall sels, gd_spread_iter (S (S (si_list sels))) [sels] = Some (gd_spreads sels)).
+Print Assumptions C21_fragment_spreads_iterated.
+
+Example C21_fragment_spreads_iterated_nonvacuous :
+  gd_spread_iter 20 [[SField None [97] [] [] [SSpread [65] []; SInline None [] [SSpread [66] []]]; SSpread [67] []]]
+  = Some [[65]; [66]; [67]].
+Proof. vm_compute. reflexivity. Qed.
 
 (* walk_selections, walk_selections_with_deduped_fragments, walk_defers_in_selection_set,
    forbid_defer_on_root, forbid_unconditional_defer are the modes of gd_walk *)
